@@ -22,7 +22,8 @@ from t1_c14 import CLASS_IDS
 GEN = ["RegistryParams"]
 RULE = ("lifecycle grid, exhaustive: 8 classes x raise points {before the first sheet, after sheet_iter, after row_iter is created, "
         "in the header phase (loader.header raises), after row k for every k, after exhaustion, no raise} x {path, caller's file object} "
-        "+ explicit close() at every position of the full read sequence; random well-formed bodies with closes and raises; "
+        "+ explicit close() at every position of the full read sequence; the classes that open the file themselves (CSV, NDJSON, COBOL text, EBCDIC) also on the same content "
+        "under nine other file NAMES (compressed-file, backup, upper-case endings, no ending); random well-formed bodies with closes and raises; "
         "registry histories (registrations and opens INTERLEAVED, every open observed in order) on a fresh WBFileRegistry: every sequence of "
         "<=4 (quick) / <=5 (thorough) operations over {register .a->1, .a->2, .b->1, open f.a, open f.b} + random multi-suffix histories; "
         "on the global registry: histories with a throw-away suffix and override/restore of a registered suffix, plus every registered suffix "
@@ -156,6 +157,16 @@ def _setup(ctx):
             next(source)
             raise Boom()
 
+    # the same content under other NAMES, for the classes that open the file themselves (the name must not matter to a class that
+    # is constructed directly: compressed-file, backup and upper-case endings, no ending at all)
+    alts = {}
+    for cid in ALT_CLASSES:
+        alts[cid] = {}
+        for k, nm in enumerate(ALT_NAMES, 1):
+            q = root / f"alt{cid}" / nm
+            q.parent.mkdir(exist_ok=True)
+            shutil.copy(paths[cid], q)
+            alts[cid][k] = q
     classes = {}
     for name, cid in CLASS_IDS.items():
         classes[cid] = getattr(W, name, None) or getattr(I, name)
@@ -167,10 +178,12 @@ def _setup(ctx):
         sys.addaudithook(_hook)
         _AUDIT["installed"] = True
     _ST.update(td=td, root=root, paths=paths, schemas=schemas, classes=classes, RaisingLoader=RaisingLoader,
-               HeadingRowSchemaLoader=W.HeadingRowSchemaLoader, W=W, Path=Path, reg=reg)
+               HeadingRowSchemaLoader=W.HeadingRowSchemaLoader, W=W, Path=Path, reg=reg, alts=alts)
     return _ST
 
 
+ALT_CLASSES = (1, 2, 7, 8)
+ALT_NAMES = ["data.gz", "data.ebc.gz", "data.bz2", "data.zip", "data.xz", "DATA.DAT", "data", "data.bak~", "data.csv.Z"]
 CONTENT = [(".json", 2), (".ndjson", 2), (".jsonnl", 2), (".xlsx", 4), (".xls", 3), (".ods", 5), (".numbers", 6)]
 
 
@@ -312,6 +325,13 @@ def inputs(ctx):
     ctx.exhaustive.append("lifecycle_grid_8_classes_x_raise_points_x_close_positions_x_2_modes")
     for inp in _grid():
         yield "grid", inp
+    ctx.exhaustive.append("lifecycle_other_file_names_4_classes_x_9_names_x_7_bodies_x_2_modes")
+    for cid in ALT_CLASSES:
+        n = NROWS[cid]
+        for alt in range(1, len(ALT_NAMES) + 1):
+            for body in ([], [1, 2, 3], [1, 2, 3, 5], [1, 2, 4], [1, 2, 3, 6], [1, 2] + [3] * n + [4, 5], [1, 2, 3, 3, 6, 6, 5]):
+                for mode in (0, 1):
+                    yield "other_names", {"kind": 1, "cls": cid, "mode": mode, "body": body, "alt": alt}
     count = 100 if ctx.tier == "quick" else 4000
     for _ in range(count):
         cid = rng.randint(1, 8)
@@ -397,7 +417,7 @@ def _do(st, code, cid, wb, env):
 
 def _lifecycle(st, inp):
     cid, mode, body = inp["cls"], inp["mode"], list(inp["body"])
-    path = st["paths"][cid]
+    path = st["alts"][cid][inp["alt"]] if inp.get("alt") else st["paths"][cid]
     cls = st["classes"][cid]
     p = str(path)
     fobj = None
@@ -621,7 +641,8 @@ def observe(ctx, inp):
 
 def describe(inp):
     if inp["kind"] == 1:
-        return (f"with {ID_NAMES.get(inp['cls'], inp['cls'])}({'path, file_object' if inp['mode'] else 'path'}) as wb: "
+        return ((f"file named {ALT_NAMES[inp['alt'] - 1]!r}: " if inp.get("alt") else "")
+                + f"with {ID_NAMES.get(inp['cls'], inp['cls'])}({'path, file_object' if inp['mode'] else 'path'}) as wb: "
                 + "; ".join(CODE_NAMES.get(c, str(c)) for c in inp["body"]))
     if inp["kind"] in (2, 4):
         return ("fresh WBFileRegistry: " if inp["kind"] == 2 else "global file_registry: ") + "; ".join(
